@@ -247,6 +247,10 @@ func genC08(w *bufio.Writer, tier string, rng *rand.Rand) {
 				xs = append(xs, []float64{a * 13, a * 25, 1300, 2000, 7e4, 2e6, 3e15, 1e30, 1e300, math.MaxFloat64,
 					a * logUniform(rng, 5, 1e4), logUniform(rng, 700, 1e18)}[rng.Intn(12)])
 			}
+			// x on its own scale, whatever a is (tails of small a, bulk of large a)
+			for i := 0; i < 4; i++ {
+				xs = append(xs, logUniform(rng, 1e-3, 60), a+math.Sqrt(a)*logUniform(rng, 1, 60))
+			}
 			sortFloats(xs)
 			fmt.Fprintf(w, "mx gammagrid %s %s\n", fmtF(a), fmtFs(xs))
 			if rng.Intn(10) == 0 {
@@ -264,8 +268,12 @@ func genC08(w *bufio.Writer, tier string, rng *rand.Rand) {
 			fmt.Fprintf(w, "mx choose %d %d\n", nn, kk)
 		case 8:
 			a, b := logUniform(rng, 0.05, 300), logUniform(rng, 0.05, 300)
-			if rng.Intn(2) == 0 {
+			switch rng.Intn(4) {
+			case 0:
 				a, b = float64(1+rng.Intn(80)), float64(1+rng.Intn(80))
+			case 1: // around the largest arguments whose Gamma is a finite float64 (171.62...)
+				a = []float64{170, 171, 171.5, 172, 100, 85.8, 2, 1, 0.5}[rng.Intn(9)]
+				b = []float64{170, 171, 171.6, 172, 100, 85.9, 2, 1, 170.9, 71.7}[rng.Intn(10)]
 			}
 			fmt.Fprintf(w, "mx beta %s %s\n", fmtF(a), fmtF(b))
 		default:
